@@ -108,8 +108,34 @@ def _complexify(at, scf, rng):
     return [np.stack([p @ U for p in psi[0]])]
 
 
+def nat_FLO_degenerate():
+    """Orthonormal plane-wave orbitals exp(i j b1 x) (j = 0..3) and four equally spaced FODs: R is the unitary DFT matrix, the
+    Fermi orbitals are already orthonormal and their overlap matrix is the identity up to round-off (4-fold degenerate)."""
+    import eminus
+    from eminus import Atoms
+    from eminus.localizer import get_FLO
+
+    eminus.config.backend = "numpy"
+    eminus.config.verbose = "critical"
+    at = Atoms("Ne", [0, 0, 0], ecut=5, a=10).build()
+    act = at.active[0]
+    G = np.asarray(at.G)[np.asarray(act[0] if isinstance(act, (list, tuple)) else act).ravel()]
+    b = 2 * np.pi / 10
+    idx = [int(np.argmin(np.abs(G - np.array([j * b, 0, 0])).sum(axis=1))) for j in range(4)]
+    W = np.zeros((1, len(G), 4), dtype=complex)
+    for j, i in enumerate(idx):
+        W[0, i, j] = 1 / np.sqrt(at.Omega)
+    fods = [np.array([[i * 10 / 4 + 0.3, 0.2, 0.1] for i in range(4)])]
+    flo = get_FLO(at, [W], fods)[0][0]
+    return float(np.abs(at.dV * flo.conj().T @ flo - np.eye(4)).max())
+
+
 def nat_FLO(rng):
     from eminus.localizer import get_FLO, get_FO
+
+    e0 = nat_FLO_degenerate()
+    if e0 > 1e-8:
+        return e0
 
     at, scf = _native_mol()
     psi = _complexify(at, scf, rng)
